@@ -85,7 +85,7 @@ func (e *Engine) errorValue(st *State, msg string) Value {
 	return Iface{T: types.NewPointer(t), V: Ptr{Obj: id}}
 }
 
-func (e *Engine) checkObligation(st *State, c *Term, label string, in ssa.Instruction) {
+func (e *Engine) checkObligation(st *State, c *Term, label string, in ssa.Instruction) (holds bool) {
 	as := e.asserts[label]
 	if as == nil {
 		as = &AssertStat{}
@@ -95,11 +95,11 @@ func (e *Engine) checkObligation(st *State, c *Term, label string, in ssa.Instru
 	as.Checked++
 	if c.IsTrue() {
 		as.Folded++
-		return
+		return true
 	}
 	if st.known[c.id] {
 		as.Folded++
-		return
+		return true
 	}
 	q := append(append(make([]*Term, 0, len(st.pc)+1), st.pc...), Not(c))
 	r := e.strong.Check(q)
@@ -107,6 +107,8 @@ func (e *Engine) checkObligation(st *State, c *Term, label string, in ssa.Instru
 	case "unsat":
 		as.Unsat++
 		e.strong.Pop()
+		st.known[c.id] = true // implied by the path condition: nothing to add
+		return true
 	case "sat":
 		as.Sat++
 		o := &Outcome{Kind: "assert", Msg: label, Site: e.site(st), Trace: st.trace}
@@ -118,6 +120,7 @@ func (e *Engine) checkObligation(st *State, c *Term, label string, in ssa.Instru
 		e.strong.Pop()
 		e.outcomes = append(e.outcomes, &Outcome{Kind: "unknown", Msg: label + ": solver answered " + r, Site: e.site(st)})
 	}
+	return false
 }
 
 func (e *Engine) modelOf(s *Solver, nd []ndVar) []NdRec {
@@ -170,10 +173,10 @@ func init() {
 		if c.IsTrue() || st.known[c.id] {
 			return nil
 		}
-		if !e.feasible(st, c) {
+		if st.known[Not(c).id] {
 			e.end(st, "infeasible", "assume")
 		}
-		st.addPC(c)
+		st.addPC(c) // lazily: infeasibility surfaces at the next feasibility query or Reach
 		return nil
 	}
 	intrinsics[zz+"Assert"] = func(e *Engine, st *State, a []Value, in ssa.Instruction) Value {
@@ -182,7 +185,9 @@ func init() {
 		}
 		c := st.resolve(a[0].(*Term))
 		label := a[1].(string)
-		e.checkObligation(st, c, label, in)
+		if e.checkObligation(st, c, label, in) {
+			return nil
+		}
 		if c.IsFalse() {
 			e.end(st, "infeasible", "after failed assert")
 		}
@@ -199,21 +204,56 @@ func init() {
 			panic(mergeAbort{"reach in merge region"})
 		}
 		label := a[0].(string)
+		r := e.fast.Check(st.pc)
+		e.fast.Pop()
+		if r == "unsat" {
+			e.end(st, "infeasible", "reach")
+		}
 		e.reached[label]++
-		if !e.witnessed[label] {
-			r := e.fast.Check(st.pc)
-			e.fast.Pop()
-			if r == "sat" {
-				e.witnessed[label] = true
-			}
+		if r == "sat" {
+			e.witnessed[label] = true
 		}
 		return nil
 	}
 	intrinsics[zz+"Choose"] = func(e *Engine, st *State, a []Value, in ssa.Instruction) Value {
-		n := a[0].(*Term)
+		n := int(a[0].(*Term).U64())
+		k := 0
+		for _, x := range st.nd {
+			if x.kind == "choose" {
+				k++
+			}
+		}
 		v := e.nondet(st, 64, "choose")
-		st.addPC(Cmp("bvult", v, n))
-		return BVu(e.concretize(st, v, "choose"), 64)
+		if n <= 0 {
+			e.end(st, "infeasible", "choose from empty range")
+		}
+		if k < len(e.prefix) {
+			// sharding: the first choices are dictated by the job
+			if e.prefix[k] >= n {
+				e.end(st, "infeasible", "shard prefix out of range")
+			}
+			c := BVu(uint64(e.prefix[k]), 64)
+			st.addPC(Cmp("=", v, c))
+			st.setSubst(v, c)
+			return c
+		}
+		// a fresh variable can take every value: fork without consulting the solver
+		for i := 0; i < n-1; i++ {
+			c := BVu(uint64(i), 64)
+			eq := Cmp("=", v, c)
+			if st.known[eq.id] {
+				st.setSubst(v, c)
+				return c
+			}
+			if st.known[Not(eq).id] {
+				continue
+			}
+			panic(forkReq{cond: eq, subT: v, subV: c})
+		}
+		c := BVu(uint64(n-1), 64)
+		st.addPC(Cmp("=", v, c))
+		st.setSubst(v, c)
+		return c
 	}
 	intrinsics[zz+"Tier"] = func(e *Engine, st *State, a []Value, in ssa.Instruction) Value {
 		return BVu(uint64(e.tier), 64)
@@ -227,6 +267,22 @@ func init() {
 	}
 	intrinsics[zz+"StepBudget"] = func(e *Engine, st *State, a []Value, in ssa.Instruction) Value {
 		st.budget = st.steps + int(a[0].(*Term).U64())
+		return nil
+	}
+	intrinsics[zz+"UseOverrides"] = func(e *Engine, st *State, a []Value, in ssa.Instruction) Value {
+		if st.aux == nil {
+			st.aux = map[string]int{}
+		}
+		st.aux["ovr:"+a[0].(string)] = 1
+		return nil
+	}
+	intrinsics[zz+"MustReturnWithin"] = func(e *Engine, st *State, a []Value, in ssa.Instruction) Value {
+		n := int(a[0].(*Term).U64())
+		if n == 0 {
+			st.deadline = 0
+		} else {
+			st.deadline = st.steps + n
+		}
 		return nil
 	}
 	intrinsics[zz+"Note"] = func(e *Engine, st *State, a []Value, in ssa.Instruction) Value {
@@ -324,9 +380,13 @@ func init() {
 		return FuncV{Fn: e.prog.ImportedPackage("github.com/minio/sha256-simd").Func("Sum256")}
 	}
 
+	intrinsics["github.com/protolambda/ztyp/tree.sha256CombiRepeat"] = func(e *Engine, st *State, a []Value, in ssa.Instruction) Value {
+		return FuncV{Fn: e.prog.ImportedPackage("github.com/protolambda/ztyp/tree").Func("sha256Combi")}
+	}
+
 	// ---- sync ----
 	lockCell := func(e *Engine, st *State, a []Value) (Ptr, *Term) {
-		p := a[0].(Ptr)
+		p := e.ptrOf(st, a[0])
 		if p.Obj == 0 {
 			e.goPanic(st, "nil mutex")
 		}
